@@ -109,6 +109,24 @@ struct CaseIn {
     /// the save commands issued after the log through PluginState.apply_command: (transfer number, saveAs name below "/S")
     #[serde(default)]
     saves: Vec<(u64, Vec<u8>)>,
+    /// the messages reach the plugin through the real lifecycle stage (see `Pipe`); `Msg.lc` then is the generator's ground
+    /// truth: the number (1, 2, ..) of the boot of its ECU the message was sent in
+    #[serde(default)]
+    pipe: Option<Pipe>,
+}
+
+/// The plugin behind the real lifecycle stage, wired as in `adlt convert` and the remote server:
+/// messages (with reception times and timestamps) -> `parse_lifecycles_buffered_from_stream` -> `plugins_process_msgs([FileTransfer])`.
+/// The lifecycle ids the plugin sees are those the stage assigns; the generator only knows the history (boots per ECU).
+#[derive(Clone, Debug, Serialize, Deserialize, PartialEq)]
+struct Pipe {
+    /// 1 = the library pipeline; 2 = additionally `adlt convert --file_transfer=.. --file_transfer_path ..` on a file with these messages
+    mode: u8,
+    /// per message: reception time (us), timestamp (0.1 ms)
+    times: Vec<(u64, u32)>,
+    /// what the history contains (generator's description, tags only)
+    #[serde(default)]
+    tags: Vec<String>,
 }
 
 impl Intent {
@@ -315,6 +333,35 @@ struct RunObs {
     problems: Vec<String>,
     /// the manual save commands, in order
     saves: Vec<SaveObs>,
+    /// pipeline cases: what the lifecycle stage did
+    pipe: Option<PipeObs>,
+    /// the labels of the tree items as published (compared with what `adlt convert` prints)
+    labels: Vec<String>,
+    /// pipeline cases of mode 2: what the binary did
+    conv: Option<ConvObs>,
+}
+/// what the lifecycle stage did with the messages of a pipeline case
+#[derive(Clone, Debug)]
+struct PipeObs {
+    /// per message (input order) the lifecycle it was forwarded with, as label: the k-th (by id) lifecycle of its ECU in the
+    /// final lifecycle table = k (1, 2, ..); an id that is not in the final table = 1000 + (id - first id of the run)
+    lc_actual: Vec<u32>,
+    /// the final lifecycle table -- computed by the stage independently of the labels on the forwarded messages -- has exactly
+    /// one lifecycle per boot of the generator's history, holding as many messages as the boot has: the ground truth applies
+    truth_ok: bool,
+    /// lifecycles created during the run / lifecycles in the final table (created > final: lifecycles were merged)
+    created: u32,
+    finals: usize,
+    /// every message forwarded exactly once, in input order
+    forwarded_ok: bool,
+}
+#[derive(Clone, Debug)]
+struct ConvObs {
+    ok: bool,
+    /// the "LC# n: <label> [, saved as: '<path>']" lines without the "LC# n: " prefix
+    lines: Vec<String>,
+    /// the files in --file_transfer_path afterwards
+    files: Vec<(String, Option<Vec<u8>>)>,
 }
 #[derive(Clone, Debug)]
 struct SaveObs {
@@ -514,13 +561,23 @@ fn run_impl_inner(c: &CaseIn) -> RunObs {
     if let Some(g) = &c.cfg.glob {
         j.insert("autoSaveGlob".into(), json!(g));
     }
-    let mut p = FileTransferPlugin::from_json(&j).expect("plugin config");
-    let mut rets = vec![];
-    for (i, m) in c.msgs.iter().enumerate() {
-        let mut dm = build_msg(i as u32, m);
-        rets.push(p.process_msg(&mut dm));
-    }
+    let p = FileTransferPlugin::from_json(&j).expect("plugin config");
     let mut problems = vec![];
+    let (p, rets, pipe_obs): (Box<dyn Plugin + Send>, Vec<bool>, Option<PipeRun>) = match &c.pipe {
+        None => {
+            let mut p = p;
+            let mut rets = vec![];
+            for (i, m) in c.msgs.iter().enumerate() {
+                let mut dm = build_msg(i as u32, m);
+                rets.push(p.process_msg(&mut dm));
+            }
+            (Box::new(p), rets, None)
+        }
+        Some(pp) => {
+            let (p, rets, po) = run_pipeline(c, pp, p, &mut problems);
+            (p, rets, Some(po))
+        }
+    };
     let state = p.state();
     let state = state.read().unwrap();
     let generation = state.generation as u64;
@@ -532,6 +589,13 @@ fn run_impl_inner(c: &CaseIn) -> RunObs {
         }
         for v in &tree[1..] {
             items.push(parse_item(v, &mut problems));
+        }
+    }
+    let labels: Vec<String> = tree.iter().skip(1).map(|v| v["label"].as_str().unwrap_or("").to_string()).collect();
+    if let Some(po) = &pipe_obs {
+        // lifecycle ids are process-global counters: show the label of the lifecycle instead
+        for it in items.iter_mut() {
+            it.lc = po.label_of(it.lc as u32) as u64;
         }
     }
     // the save command for every transfer number
@@ -611,7 +675,168 @@ fn run_impl_inner(c: &CaseIn) -> RunObs {
         problems.push(format!("written outside the configured directory: {}/{}", ABS_PROBE, probe[0].0));
         let _ = std::fs::remove_dir_all(ABS_PROBE);
     }
-    RunObs { rets, generation, items, files, problems, saves }
+    let conv = match &c.pipe {
+        Some(pp) if pp.mode == 2 => run_convert(c, pp),
+        _ => None,
+    };
+    RunObs { rets, generation, items, files, problems, saves, pipe: pipe_obs.map(|p| p.obs), labels, conv }
+}
+
+/// message of a pipeline case: as `build_msg`, with reception time and timestamp (WTMS set); the lifecycle is the stage's business
+fn build_timed(index: u32, m: &Msg, t: (u64, u32)) -> DltMessage {
+    let mut dm = build_msg(index, m);
+    dm.reception_time_us = t.0;
+    dm.timestamp_dms = t.1;
+    dm.standard_header.htyp |= 0x10;
+    dm.lifecycle = 0;
+    dm
+}
+struct PipeRun {
+    obs: PipeObs,
+    /// real lifecycle id -> label
+    map: BTreeMap<u32, u32>,
+    base: u32,
+}
+impl PipeRun {
+    fn label_of(&self, id: u32) -> u32 {
+        match self.map.get(&id) {
+            Some(l) => *l,
+            None => 1000 + id.wrapping_sub(self.base),
+        }
+    }
+}
+/// the wiring of `adlt convert` (src/bin/adlt/convert.rs: parser -> lc_thread -> plugin_thread) and of the remote server
+/// with the real stages, run one after the other on unbounded channels
+fn run_pipeline(c: &CaseIn, pp: &Pipe, plugin: FileTransferPlugin, problems: &mut Vec<String>) -> (Box<dyn Plugin + Send>, Vec<bool>, PipeRun) {
+    use adlt::lifecycle::{parse_lifecycles_buffered_from_stream, Lifecycle, LifecycleId, LifecycleItem};
+    use std::sync::mpsc::channel;
+    let n = c.msgs.len();
+    assert_eq!(pp.times.len(), n, "pipeline case without times");
+    // ids are global; we are the only creator of lifecycles in this process right now
+    let base = {
+        let mut m = build_timed(0, &Msg { ecu: c4("ZZZZ"), lc: 0, ext: None, body: Body::Args { be: false, args: vec![] } }, (1, 0));
+        Lifecycle::new(&mut m).id()
+    };
+    let (tx, rx) = channel();
+    for (i, m) in c.msgs.iter().enumerate() {
+        tx.send(build_timed(i as u32, m, pp.times[i])).unwrap();
+    }
+    drop(tx);
+    let (tx2, rx2) = channel();
+    let (lcs_r, lcs_w) = evmap::new::<LifecycleId, LifecycleItem>();
+    let seen = std::cell::RefCell::new(Vec::<(u32, u32)>::new());
+    let lcs_w = parse_lifecycles_buffered_from_stream(lcs_w, rx, &|m: DltMessage| {
+        seen.borrow_mut().push((m.index, m.lifecycle));
+        tx2.send(m)
+    });
+    drop(tx2);
+    let (tx3, rx3) = channel();
+    let plugins = adlt::plugins::plugins_process_msgs(rx2, &|m: DltMessage| tx3.send(m), vec![Box::new(plugin) as Box<dyn Plugin + Send>]).expect("plugin stage");
+    drop(tx3);
+    let fwd: Vec<u32> = rx3.into_iter().map(|m| m.index).collect();
+    let seen = seen.into_inner();
+    let forwarded_ok = seen.len() == n && seen.iter().enumerate().all(|(i, s)| s.0 as usize == i);
+    if !forwarded_ok {
+        problems.push(format!("lifecycle stage forwarded {} of {} messages or not in order", seen.len(), n));
+    }
+    let rets: Vec<bool> = (0..n as u32).map(|i| fwd.contains(&i)).collect();
+    // the final table: (id, ecu, nr_msgs)
+    let mut table: Vec<(u32, u32, u32)> = vec![];
+    if let Some(a) = lcs_r.read() {
+        for (id, b) in a.iter() {
+            if let Some(lc) = b.get_one() {
+                table.push((*id, u32::from_be_bytes(*lc.ecu.as_buf()), lc.nr_msgs));
+            }
+        }
+    }
+    drop(lcs_w);
+    table.sort();
+    let mut map = BTreeMap::new();
+    let mut truth_ok = forwarded_ok;
+    let mut ecus: Vec<u32> = c.msgs.iter().map(|m| m.ecu).collect();
+    ecus.sort();
+    ecus.dedup();
+    for e in &ecus {
+        let rows: Vec<&(u32, u32, u32)> = table.iter().filter(|r| r.1 == *e).collect();
+        for (k, r) in rows.iter().enumerate() {
+            map.insert(r.0, k as u32 + 1);
+        }
+        let boots = c.msgs.iter().filter(|m| m.ecu == *e).map(|m| m.lc).max().unwrap_or(0) as usize;
+        if rows.len() != boots {
+            truth_ok = false;
+        }
+        for (k, r) in rows.iter().enumerate() {
+            if c.msgs.iter().filter(|m| m.ecu == *e && m.lc == k as u32 + 1).count() as u32 != r.2 {
+                truth_ok = false;
+            }
+        }
+    }
+    if table.iter().any(|r| !ecus.contains(&r.1)) {
+        truth_ok = false;
+    }
+    let created = {
+        let mut m = build_timed(0, &Msg { ecu: c4("ZZZZ"), lc: 0, ext: None, body: Body::Args { be: false, args: vec![] } }, (1, 0));
+        Lifecycle::new(&mut m).id().wrapping_sub(base).wrapping_sub(1)
+    };
+    let mut run = PipeRun { obs: PipeObs { lc_actual: vec![], truth_ok, created, finals: table.len(), forwarded_ok }, map, base };
+    let mut lc_actual = vec![0u32; n];
+    for (idx, id) in &seen {
+        if (*idx as usize) < n {
+            lc_actual[*idx as usize] = run.label_of(*id);
+        }
+    }
+    run.obs.lc_actual = lc_actual;
+    (plugins.into_iter().next().expect("plugin returned"), rets, run)
+}
+
+/// `adlt convert --file_transfer=<glob> --file_transfer_path <dir> [--file_transfer_apid ..] [--file_transfer_ctid ..] <file>` on a
+/// file holding the messages of the case (storage header = reception time and ECU, standard header with timestamp)
+fn run_convert(c: &CaseIn, pp: &Pipe) -> Option<ConvObs> {
+    let bin = std::env::var("VERIF_ADLT_BIN").ok()?;
+    if !Path::new(&bin).exists() {
+        return None;
+    }
+    let root = tempfile::tempdir().ok()?;
+    let file = root.path().join("in.dlt");
+    {
+        use std::io::Write;
+        let mut f = std::io::BufWriter::new(std::fs::File::create(&file).ok()?);
+        for (i, m) in c.msgs.iter().enumerate() {
+            build_timed(i as u32, m, pp.times[i]).to_write(&mut f).ok()?;
+        }
+        f.flush().ok()?;
+    }
+    let out = root.path().join("saved");
+    let mut cmd = std::process::Command::new(&bin);
+    cmd.arg("convert").arg(format!("--file_transfer={}", c.cfg.glob.clone().unwrap_or("*".into()))).arg("--file_transfer_path").arg(&out);
+    let c4s = |v: u32| String::from_utf8_lossy(&v.to_be_bytes()).to_string();
+    if let Some(a) = c.cfg.apid {
+        cmd.arg("--file_transfer_apid").arg(c4s(a));
+    }
+    if let Some(a) = c.cfg.ctid {
+        cmd.arg("--file_transfer_ctid").arg(c4s(a));
+    }
+    cmd.arg(&file).current_dir(root.path()).stdin(std::process::Stdio::null());
+    let o = cmd.output().ok()?;
+    let stdout = String::from_utf8_lossy(&o.stdout).to_string();
+    let mut lines = vec![];
+    // the lifecycles are listed with the same prefix: the transfers follow the line "have N file transfers:"
+    let mut in_transfers = false;
+    for l in stdout.lines() {
+        if l.starts_with("have ") && l.trim_end().ends_with("file transfers:") {
+            in_transfers = true;
+            continue;
+        }
+        if !in_transfers {
+            continue;
+        }
+        if let Some(r) = l.strip_prefix("LC# ") {
+            if let Some(p) = r.find(": ") {
+                lines.push(r[p + 2..].to_string());
+            }
+        }
+    }
+    Some(ConvObs { ok: o.status.success(), lines, files: list_flat(&out) })
 }
 
 /// file contents in the observation (mirrors Exec/C17.v o_blob): literal up to 48 bytes, else length, checksum, head, tail
@@ -714,7 +939,7 @@ fn oracle(c: &CaseIn, r: &Result<RunObs, String>) -> Verdict {
         Ok(o) => o,
     };
     if let Some(p) = o.problems.first() {
-        let cl = if p.contains("outside") || p.contains("not below") { "autosave_confined" } else { "harness_parse" };
+        let cl = if p.contains("outside") || p.contains("not below") { "autosave_confined" } else if p.contains("lifecycle stage forwarded") { "pipeline_forward" } else { "harness_parse" };
         return fail(cl, p.clone());
     }
     // automatic saving never overwrites an existing file
@@ -874,7 +1099,54 @@ fn oracle(c: &CaseIn, r: &Result<RunObs, String>) -> Verdict {
             return fail("damaged_saved", format!("serial {} not complete but the save command delivers data", i.serial));
         }
     }
+    // the binary (`adlt convert --file_transfer..`) on a file with the same messages: same transfers reported, same files saved
+    // (the clauses above hold for the library pipeline; equality carries them over)
+    if let Some(cv) = &o.conv {
+        if !cv.ok {
+            return fail("convert_run", "adlt convert failed".into());
+        }
+        let mut want: Vec<(String, Option<Vec<u8>>)> = vec![];
+        for f in &o.files {
+            if f.0.starts_with(b"/S/") {
+                continue;
+            }
+            let rest = f.0.strip_prefix(&sd[..]).unwrap_or(&f.0);
+            let rest = rest.strip_prefix(b"/").unwrap_or(rest);
+            want.push((String::from_utf8_lossy(rest).to_string(), Some(f.1.clone())));
+        }
+        want.sort();
+        if want != cv.files {
+            let show = |l: &Vec<(String, Option<Vec<u8>>)>| l.iter().map(|e| format!("{}:{}", e.0, e.1.as_ref().map(|d| d.len() as i64).unwrap_or(-1))).collect::<Vec<_>>().join(",");
+            return fail("convert_saved", format!("adlt convert saved [{}], the library pipeline [{}]", show(&cv.files), show(&want)));
+        }
+        let same = cv.lines.len() == o.items.len()
+            && cv.lines.iter().zip(o.labels.iter().zip(o.items.iter())).all(|(l, (lab, it))| l.starts_with(lab.as_str()) && l.contains(", saved as: '") == it.saved_to.is_some());
+        if !same {
+            return fail("convert_reported", format!("adlt convert reports {:?}, the library pipeline {:?}", cv.lines, o.labels));
+        }
+    }
     Verdict::Ok
+}
+
+/// The case as the plugin model and the oracle read it.  Pipeline cases: the generator's ground truth (one lifecycle per boot,
+/// `Msg.lc` = number of the boot) is used when the stage's FINAL LIFECYCLE TABLE confirms it (one lifecycle per boot with the
+/// boot's number of messages: that table is kept by the stage independently of the labels it puts on the forwarded messages).
+/// Otherwise (the detection heuristics legitimately saw the history differently) the labels are those of the forwarded
+/// messages and no transfer-level expectation is derived: only the clauses that hold for every log apply.
+fn effective(c: &CaseIn, r: &Result<RunObs, String>) -> CaseIn {
+    if let (Some(_), Ok(o)) = (&c.pipe, r) {
+        if let Some(po) = &o.pipe {
+            if !po.truth_ok {
+                let mut e = c.clone();
+                for (m, l) in e.msgs.iter_mut().zip(po.lc_actual.iter()) {
+                    m.lc = *l;
+                }
+                e.intents.clear();
+                return e;
+            }
+        }
+    }
+    c.clone()
 }
 
 // ------------------------------------------------------------------ Coq rendering
@@ -944,8 +1216,9 @@ fn glob_table(c: &CaseIn) -> Option<Vec<Vec<u8>>> {
 
 fn record(sink: &mut Sink, family: &str, c0: CaseIn) {
     // normalise the messages first (the model reads decoded arguments)
-    let c = CaseIn { msgs: c0.msgs.iter().map(|m| normalise(&compress(m))).collect(), ..c0 };
-    let r = run_impl(&c);
+    let c_in = CaseIn { msgs: c0.msgs.iter().map(|m| normalise(&compress(m))).collect(), ..c0 };
+    let r = run_impl(&c_in);
+    let c = effective(&c_in, &r);
     let mut verdict = oracle(&c, &r);
     if let Some((nr, bs)) = c.probe {
         if let Verdict::Ok = verdict {
@@ -958,6 +1231,27 @@ fn record(sink: &mut Sink, family: &str, c0: CaseIn) {
     let mut tags = vec![format!("family_{}", family), format!("transfers{}", c.intents.len().min(5))];
     if c.probe.is_some() {
         tags.push("oracle_only_prealloc_probe".into());
+    }
+    if let Some(pp) = &c_in.pipe {
+        tags.push("via_lifecycle_stage".into());
+        tags.extend(pp.tags.iter().cloned());
+        if let Ok(o) = &r {
+            if let Some(po) = &o.pipe {
+                tags.push(if po.truth_ok { "lc_truth_confirmed_by_table".to_string() } else { "lc_truth_mismatch".to_string() });
+                if po.created as usize > po.finals {
+                    tags.push("lc_merge_happened".into());
+                }
+                if po.truth_ok && po.lc_actual.iter().zip(c_in.msgs.iter()).any(|(a, m)| *a != m.lc) {
+                    tags.push("forwarded_label_not_final".into());
+                }
+                if c_in.msgs.iter().any(|m| m.lc > 1) {
+                    tags.push("lc_reboot".into());
+                }
+            }
+            if pp.mode == 2 {
+                tags.push(if o.conv.is_some() { "adlt_convert_run".to_string() } else { "adlt_convert_bin_missing".to_string() });
+            }
+        }
     }
     for t in &c.intents {
         tags.push(format!("fault_{}", t.fault));
@@ -1048,7 +1342,7 @@ fn record(sink: &mut Sink, family: &str, c0: CaseIn) {
     tags.dedup();
     let nontrivial = c.intents.iter().any(|t| t.size() > t.bs) || c.intents.len() >= 2;
     let id = sink.next_id();
-    sink.push(Case { id, input_coq: input_coq.clone(), input_json: serde_json::to_value(&c).unwrap(), obs, verdict, classes: vec![], tags, nontrivial, key: input_coq });
+    sink.push(Case { id, input_coq: input_coq.clone(), input_json: serde_json::to_value(&c_in).unwrap(), obs, verdict, classes: vec![], tags, nontrivial, key: input_coq });
 }
 
 // ------------------------------------------------------------------ generators
@@ -1358,7 +1652,7 @@ fn gen_scenario(rng: &mut Rng, big: bool) -> CaseIn {
     }
     let noise = rng.below(4);
     let msgs = if rng.chance(1, 5) { seqs.concat() } else { interleave(rng, seqs, &plans, noise, cfg.apid.is_some()) };
-    CaseIn { cfg, msgs, intents, isolate: false, probe: None, spre: vec![], sdirs: vec![], sreadonly: vec![], saves: vec![] }
+    CaseIn { cfg, msgs, intents, isolate: false, probe: None, spre: vec![], sdirs: vec![], sreadonly: vec![], saves: vec![], pipe: None }
 }
 
 /// malformed / adversarial streams: no intents, the oracle only checks crash freedom and the file system rules
@@ -1421,7 +1715,7 @@ fn gen_malformed(rng: &mut Rng) -> CaseIn {
         let ext = if rng.chance(1, 12) { None } else { Some((c4(*rng.pick(&["APID", "APID", "APIX"])), c4("CTID"), vmm, noar)) };
         msgs.push(Msg { ecu, lc, ext, body });
     }
-    CaseIn { cfg, msgs, intents: vec![], isolate: false, probe: None, spre: vec![], sdirs: vec![], sreadonly: vec![], saves: vec![] }
+    CaseIn { cfg, msgs, intents: vec![], isolate: false, probe: None, spre: vec![], sdirs: vec![], sreadonly: vec![], saves: vec![], pipe: None }
 }
 
 /// announcements with huge sizes (pre-allocation from announced sizes); run isolated
@@ -1447,7 +1741,7 @@ fn huge_cases() -> Vec<CaseIn> {
                 mk(Body::Flda { be: false, sty: 3, sty2: 3, serial: 5, pnr: 1, raw_ti: TI_RAWD, payload: vec![1, 2] }, 5),
                 mk(Body::Flfi { be: false, sty: 3, serial: 5 }, 3),
             ];
-            v.push(CaseIn { cfg, msgs, intents: vec![], isolate: true, probe: None, spre: vec![], sdirs: vec![], sreadonly: vec![], saves: vec![] });
+            v.push(CaseIn { cfg, msgs, intents: vec![], isolate: true, probe: None, spre: vec![], sdirs: vec![], sreadonly: vec![], saves: vec![], pipe: None });
         }
     }
     v
@@ -1457,7 +1751,7 @@ fn corpus(sink: &mut Sink) {
     // DESIGN Appendix A, C17-1: 3 packages of 2 bytes, FLDA 1,2,2,3
     let p = simple_plan(17, b"test_file.bin", vec![1, 2, 3, 4, 5, 6], 2);
     for f in [Fault::Dup(2, 2), Fault::None, Fault::Dup(1, 1), Fault::Dup(1, 3), Fault::Dup(3, 3)] {
-        record(sink, "corpus", CaseIn { cfg: std_cfg(), msgs: transfer_msgs(&p, &f), intents: vec![intent(&p, &f)], isolate: false, probe: None, spre: vec![], sdirs: vec![], sreadonly: vec![], saves: vec![] });
+        record(sink, "corpus", CaseIn { cfg: std_cfg(), msgs: transfer_msgs(&p, &f), intents: vec![intent(&p, &f)], isolate: false, probe: None, spre: vec![], sdirs: vec![], sreadonly: vec![], saves: vec![], pipe: None });
     }
     // duplicate in a transfer whose announcement was lost (all packages of equal size)
     {
@@ -1465,7 +1759,7 @@ fn corpus(sink: &mut Sink) {
         m.remove(0);
         let mut i = intent(&p, &Fault::Dup(2, 2));
         i.fault = "drop_flst".into();
-        record(sink, "corpus", CaseIn { cfg: std_cfg(), msgs: m, intents: vec![i], isolate: false, probe: None, spre: vec![], sdirs: vec![], sreadonly: vec![], saves: vec![] });
+        record(sink, "corpus", CaseIn { cfg: std_cfg(), msgs: m, intents: vec![i], isolate: false, probe: None, spre: vec![], sdirs: vec![], sreadonly: vec![], saves: vec![], pipe: None });
     }
     // the repository's unit tests: recovered transfer (FLDA with a string payload + FLFI), regular transfer, auto save
     {
@@ -1477,17 +1771,17 @@ fn corpus(sink: &mut Sink) {
             let mut cfg = std_cfg();
             cfg.allow_save = allow;
             cfg.keep_flda = !allow;
-            record(sink, "corpus", CaseIn { cfg, msgs: vec![m1.clone(), m2.clone()], intents: vec![], isolate: false, probe: None, spre: vec![], sdirs: vec![], sreadonly: vec![], saves: vec![] });
+            record(sink, "corpus", CaseIn { cfg, msgs: vec![m1.clone(), m2.clone()], intents: vec![], isolate: false, probe: None, spre: vec![], sdirs: vec![], sreadonly: vec![], saves: vec![], pipe: None });
         }
         let p1 = Plan { bs: 512, ..simple_plan(17, b"test_file.bin", b"data".to_vec(), 512) };
-        record(sink, "corpus", CaseIn { cfg: std_cfg(), msgs: transfer_msgs(&p1, &Fault::None), intents: vec![intent(&p1, &Fault::None)], isolate: false, probe: None, spre: vec![], sdirs: vec![], sreadonly: vec![], saves: vec![] });
+        record(sink, "corpus", CaseIn { cfg: std_cfg(), msgs: transfer_msgs(&p1, &Fault::None), intents: vec![intent(&p1, &Fault::None)], isolate: false, probe: None, spre: vec![], sdirs: vec![], sreadonly: vec![], saves: vec![], pipe: None });
         let p2 = Plan { name: b"/tmp/test_file.bin".to_vec(), ..p1.clone() };
         let mut cfg = autosave_cfg(false, "**/test_*.*", "");
         cfg.keep_flda = true;
-        record(sink, "corpus", CaseIn { cfg: cfg.clone(), msgs: transfer_msgs(&p2, &Fault::None), intents: vec![intent(&p2, &Fault::None)], isolate: false, probe: None, spre: vec![], sdirs: vec![], sreadonly: vec![], saves: vec![] });
+        record(sink, "corpus", CaseIn { cfg: cfg.clone(), msgs: transfer_msgs(&p2, &Fault::None), intents: vec![intent(&p2, &Fault::None)], isolate: false, probe: None, spre: vec![], sdirs: vec![], sreadonly: vec![], saves: vec![], pipe: None });
         // the same with the target already present: nothing may be written
         cfg.pre = vec![(b"test_file.bin".to_vec(), b"old".to_vec())];
-        record(sink, "corpus", CaseIn { cfg, msgs: transfer_msgs(&p2, &Fault::None), intents: vec![intent(&p2, &Fault::None)], isolate: false, probe: None, spre: vec![], sdirs: vec![], sreadonly: vec![], saves: vec![] });
+        record(sink, "corpus", CaseIn { cfg, msgs: transfer_msgs(&p2, &Fault::None), intents: vec![intent(&p2, &Fault::None)], isolate: false, probe: None, spre: vec![], sdirs: vec![], sreadonly: vec![], saves: vec![], pipe: None });
     }
     // every name of the table through auto save (allowSave on and off), two transfers so that equal base names collide
     for (k, name) in NAMES.iter().enumerate() {
@@ -1503,7 +1797,7 @@ fn corpus(sink: &mut Sink) {
             if k % 5 == 2 {
                 cfg.dir_missing = true;
             }
-            record(sink, "names", CaseIn { cfg, msgs, intents: vec![intent(&pa, &Fault::None), intent(&pb, &Fault::None)], isolate: false, probe: None, spre: vec![], sdirs: vec![], sreadonly: vec![], saves: vec![] });
+            record(sink, "names", CaseIn { cfg, msgs, intents: vec![intent(&pa, &Fault::None), intent(&pb, &Fault::None)], isolate: false, probe: None, spre: vec![], sdirs: vec![], sreadonly: vec![], saves: vec![], pipe: None });
         }
     }
     // re-announcement of a running transfer's key, announcement after a recovered (MissingStart) transfer
@@ -1511,29 +1805,29 @@ fn corpus(sink: &mut Sink) {
         let p = simple_plan(9, b"re.bin", vec![1, 2, 3, 4], 2);
         let t = transfer_msgs(&p, &Fault::None);
         let msgs = vec![t[0].clone(), t[1].clone(), t[0].clone(), t[1].clone(), t[2].clone(), t[3].clone()];
-        record(sink, "corpus", CaseIn { cfg: std_cfg(), msgs, intents: vec![], isolate: false, probe: None, spre: vec![], sdirs: vec![], sreadonly: vec![], saves: vec![] });
+        record(sink, "corpus", CaseIn { cfg: std_cfg(), msgs, intents: vec![], isolate: false, probe: None, spre: vec![], sdirs: vec![], sreadonly: vec![], saves: vec![], pipe: None });
         let msgs = vec![t[1].clone(), t[0].clone(), t[1].clone(), t[2].clone(), t[3].clone(), t[3].clone()];
-        record(sink, "corpus", CaseIn { cfg: std_cfg(), msgs, intents: vec![], isolate: false, probe: None, spre: vec![], sdirs: vec![], sreadonly: vec![], saves: vec![] });
+        record(sink, "corpus", CaseIn { cfg: std_cfg(), msgs, intents: vec![], isolate: false, probe: None, spre: vec![], sdirs: vec![], sreadonly: vec![], saves: vec![], pipe: None });
         // end marker twice, packages after completion
         let msgs = vec![t[0].clone(), t[1].clone(), t[2].clone(), t[3].clone(), t[3].clone(), t[2].clone(), t[1].clone()];
-        record(sink, "corpus", CaseIn { cfg: std_cfg(), msgs, intents: vec![intent(&p, &Fault::None)], isolate: false, probe: None, spre: vec![], sdirs: vec![], sreadonly: vec![], saves: vec![] });
+        record(sink, "corpus", CaseIn { cfg: std_cfg(), msgs, intents: vec![intent(&p, &Fault::None)], isolate: false, probe: None, spre: vec![], sdirs: vec![], sreadonly: vec![], saves: vec![], pipe: None });
         // announced size 0
         let mut t0 = t.clone();
         if let Body::Flst { size, .. } = &mut t0[0].body {
             *size = 0;
         }
-        record(sink, "corpus", CaseIn { cfg: std_cfg(), msgs: t0, intents: vec![], isolate: false, probe: None, spre: vec![], sdirs: vec![], sreadonly: vec![], saves: vec![] });
+        record(sink, "corpus", CaseIn { cfg: std_cfg(), msgs: t0, intents: vec![], isolate: false, probe: None, spre: vec![], sdirs: vec![], sreadonly: vec![], saves: vec![], pipe: None });
         // disabled plugin
         let mut cfg = std_cfg();
         cfg.enabled = false;
-        record(sink, "corpus", CaseIn { cfg, msgs: t.clone(), intents: vec![], isolate: false, probe: None, spre: vec![], sdirs: vec![], sreadonly: vec![], saves: vec![] });
+        record(sink, "corpus", CaseIn { cfg, msgs: t.clone(), intents: vec![], isolate: false, probe: None, spre: vec![], sdirs: vec![], sreadonly: vec![], saves: vec![], pipe: None });
         // filters that do not match / message without extended header
         let mut cfg = std_cfg();
         cfg.apid = Some(c4("APIX"));
-        record(sink, "corpus", CaseIn { cfg, msgs: t.clone(), intents: vec![], isolate: false, probe: None, spre: vec![], sdirs: vec![], sreadonly: vec![], saves: vec![] });
+        record(sink, "corpus", CaseIn { cfg, msgs: t.clone(), intents: vec![], isolate: false, probe: None, spre: vec![], sdirs: vec![], sreadonly: vec![], saves: vec![], pipe: None });
         let mut cfg = std_cfg();
         cfg.ctid = Some(c4("CTIX"));
-        record(sink, "corpus", CaseIn { cfg, msgs: t.clone(), intents: vec![], isolate: false, probe: None, spre: vec![], sdirs: vec![], sreadonly: vec![], saves: vec![] });
+        record(sink, "corpus", CaseIn { cfg, msgs: t.clone(), intents: vec![], isolate: false, probe: None, spre: vec![], sdirs: vec![], sreadonly: vec![], saves: vec![], pipe: None });
     }
     for c in huge_cases() {
         record(sink, "huge", c);
@@ -1555,7 +1849,7 @@ fn sweep(sink: &mut Sink, rng: &mut Rng, max_n: usize) {
                     let p = Plan { be: serial % 5 == 0, ..simple_plan(serial, b"sweep.bin", file_bytes(rng, len as usize), bs) };
                     let mut cfg = std_cfg();
                     cfg.keep_flda = serial % 3 == 0;
-                    record(sink, "sweep", CaseIn { cfg, msgs: transfer_msgs(&p, &f), intents: vec![intent(&p, &f)], isolate: false, probe: None, spre: vec![], sdirs: vec![], sreadonly: vec![], saves: vec![] });
+                    record(sink, "sweep", CaseIn { cfg, msgs: transfer_msgs(&p, &f), intents: vec![intent(&p, &f)], isolate: false, probe: None, spre: vec![], sdirs: vec![], sreadonly: vec![], saves: vec![], pipe: None });
                 }
             }
         }
@@ -1584,7 +1878,7 @@ fn all_interleavings(sink: &mut Sink) {
                 j += 1;
             }
         }
-        record(sink, "interleavings", CaseIn { cfg: std_cfg(), msgs, intents: vec![intent(&pa, &Fault::None), intent(&pb, &Fault::None)], isolate: false, probe: None, spre: vec![], sdirs: vec![], sreadonly: vec![], saves: vec![] });
+        record(sink, "interleavings", CaseIn { cfg: std_cfg(), msgs, intents: vec![intent(&pa, &Fault::None), intent(&pb, &Fault::None)], isolate: false, probe: None, spre: vec![], sdirs: vec![], sreadonly: vec![], saves: vec![], pipe: None });
     }
 }
 
@@ -1631,7 +1925,7 @@ fn sized_cases(sink: &mut Sink, rng: &mut Rng, tier: &str) {
             plans.push(q);
         }
         let msgs = if seqs.len() == 1 && k % 2 == 0 { seqs.concat() } else { interleave(rng, seqs, &plans, k % 3, cfg.apid.is_some()) };
-        record(sink, "sized", CaseIn { cfg, msgs, intents, isolate: false, probe: None, spre: vec![], sdirs: vec![], sreadonly: vec![], saves: vec![] });
+        record(sink, "sized", CaseIn { cfg, msgs, intents, isolate: false, probe: None, spre: vec![], sdirs: vec![], sreadonly: vec![], saves: vec![], pipe: None });
     };
     let quick = tier == "quick";
     // lost announcement: n equal packages of bs bytes
@@ -1740,7 +2034,7 @@ fn save_cases(sink: &mut Sink, rng: &mut Rng, tier: &str) {
         for prior in PRIORS {
             serial += 2;
             let (p, f) = plan_of_size(rng, serial, *size, false);
-            let mut c = CaseIn { cfg: std_cfg(), msgs: transfer_msgs(&p, &f), intents: vec![intent(&p, &f)], isolate: false, probe: None, spre: vec![], sdirs: vec![], sreadonly: vec![], saves: vec![] };
+            let mut c = CaseIn { cfg: std_cfg(), msgs: transfer_msgs(&p, &f), intents: vec![intent(&p, &f)], isolate: false, probe: None, spre: vec![], sdirs: vec![], sreadonly: vec![], saves: vec![], pipe: None };
             let t = prepare(&mut c, 0, *prior, *size);
             c.saves.push((0, t.clone()));
             if serial % 4 == 0 {
@@ -1759,7 +2053,7 @@ fn save_cases(sink: &mut Sink, rng: &mut Rng, tier: &str) {
             let seqs = vec![transfer_msgs(&pa, &fa), transfer_msgs(&pb, &fb)];
             let plans = vec![pa.clone(), pb.clone()];
             let msgs = interleave(rng, seqs, &plans, 1, true);
-            let mut c = CaseIn { cfg: std_cfg(), msgs, intents: vec![intent(&pa, &fa), intent(&pb, &fb)], isolate: false, probe: None, spre: vec![], sdirs: vec![], sreadonly: vec![], saves: vec![] };
+            let mut c = CaseIn { cfg: std_cfg(), msgs, intents: vec![intent(&pa, &fa), intent(&pb, &fb)], isolate: false, probe: None, spre: vec![], sdirs: vec![], sreadonly: vec![], saves: vec![], pipe: None };
             let t = prepare(&mut c, 0, *prior, (*sa).max(*sb));
             // transfer numbers follow the order of the announcements in the log
             let first_is_a = c.msgs.iter().find_map(|m| if let Body::Flst { serial: s, .. } = &m.body { Some(*s == pa.serial) } else { None }).unwrap_or(true);
@@ -1801,7 +2095,7 @@ fn save_cases(sink: &mut Sink, rng: &mut Rng, tier: &str) {
         cfg.keep_flda = rng.chance(1, 3);
         let noise = rng.below(2);
         let msgs = interleave(rng, seqs, &plans, noise, true);
-        let mut c = CaseIn { cfg, msgs, intents, isolate: false, probe: None, spre: vec![], sdirs: vec![], sreadonly: vec![], saves: vec![] };
+        let mut c = CaseIn { cfg, msgs, intents, isolate: false, probe: None, spre: vec![], sdirs: vec![], sreadonly: vec![], saves: vec![], pipe: None };
         let nt = rng.range(1, 3) as usize;
         let mut targets = vec![];
         for t in 0..nt {
@@ -1837,7 +2131,7 @@ fn save_cases(sink: &mut Sink, rng: &mut Rng, tier: &str) {
                 }
                 let mut msgs = transfer_msgs(&p, &f);
                 msgs.extend(transfer_msgs(&q, &fq));
-                let mut c = CaseIn { cfg, msgs, intents: vec![intent(&p, &f), intent(&q, &fq)], isolate: false, probe: None, spre: vec![], sdirs: vec![], sreadonly: vec![], saves: vec![] };
+                let mut c = CaseIn { cfg, msgs, intents: vec![intent(&p, &f), intent(&q, &fq)], isolate: false, probe: None, spre: vec![], sdirs: vec![], sreadonly: vec![], saves: vec![], pipe: None };
                 if allow {
                     // and a manual save of both on top of each other
                     c.saves = vec![(1, b"manual.bin".to_vec()), (0, b"manual.bin".to_vec())];
@@ -1867,7 +2161,7 @@ fn rekey_case(rng: &mut Rng, cfg: Cfg, lanes: Vec<Vec<(Plan, Fault)>>, noise: u6
         seqs.push(seq);
     }
     let msgs = if seqs.len() == 1 && noise == 0 { seqs.concat() } else { interleave(rng, seqs, &plans, noise, cfg.apid.is_some()) };
-    let mut c = CaseIn { cfg, msgs, intents, isolate: false, probe: None, spre: vec![], sdirs: vec![], sreadonly: vec![], saves: vec![] };
+    let mut c = CaseIn { cfg, msgs, intents, isolate: false, probe: None, spre: vec![], sdirs: vec![], sreadonly: vec![], saves: vec![], pipe: None };
     if saves {
         let n = c.intents.len() as u64;
         // every transfer number to its own file, then all of them over one file (a shorter one after a longer one included)
@@ -2018,7 +2312,7 @@ fn rekey_cases(sink: &mut Sink, rng: &mut Rng, tier: &str) {
         let mut msgs = transfer_msgs(&p1, &Fault::Trunc(n as usize - 1, with_flfi));
         msgs.extend(transfer_msgs(&p2, &Fault::DropFlst));
         let cfg = if allow { std_cfg() } else { autosave_cfg(false, "*", "") };
-        record(sink, "rekey_quirk", CaseIn { cfg, msgs, intents: vec![], isolate: false, probe: None, spre: vec![], sdirs: vec![], sreadonly: vec![], saves: vec![] });
+        record(sink, "rekey_quirk", CaseIn { cfg, msgs, intents: vec![], isolate: false, probe: None, spre: vec![], sdirs: vec![], sreadonly: vec![], saves: vec![], pipe: None });
     }
     // (b) the same serial on several ECUs and in several lifecycles at once, each key used one or more times
     let n_coll = if quick { 24 } else { 120 };
@@ -2095,6 +2389,529 @@ fn rekey_cases(sink: &mut Sink, rng: &mut Rng, tier: &str) {
         let saves = cfg.allow_save && rng.chance(1, 3);
         let c = rekey_case(rng, cfg, lanes, noise, saves);
         record(sink, "rekey_random", c);
+    }
+}
+
+// ------------------------------------------------------------------ the plugin behind the real lifecycle stage
+// The plugin keys a transfer by (ecu, msg.lifecycle, serial) and relies on the stage that runs directly before it (in
+// `adlt convert` and in the remote server) to forward every message with its FINAL lifecycle id.  These families send
+// generated traces through the real `parse_lifecycles_buffered_from_stream` and then through the real plugin
+// (`plugins_process_msgs`), with the transfers placed inside lifecycle histories: boots of an ECU (reboots in between,
+// also in the middle of a transfer), lifecycles confirmed by their time span while a transfer runs, and bursts of stale
+// messages (buffered on the ECU longer than its lifecycle is old) that open an interim lifecycle which the next less
+// delayed message merges into its predecessor -- the predecessor being already published or still buffered.
+// Ground truth = the history: one lifecycle per boot.  Expectation per transfer from the boots of its messages.
+const SEC: u64 = 1_000_000;
+const RHO: u64 = 1_000_000_000_000;
+#[derive(Clone, Copy, Debug, PartialEq)]
+enum BootKind {
+    /// a few seconds of messages with small transport delays
+    Plain,
+    /// timestamps many seconds apart: the lifecycle is confirmed by its span (> 60 s) while the boot goes on
+    Long,
+    /// head (confirmed by its span, published) - stale burst (interim lifecycle) - trigger (merge into the published one) - tail
+    MergePub,
+    /// the same with a head shorter than 60 s: the predecessor is still buffered when the merge happens
+    MergeBuf,
+}
+#[derive(Clone, Debug)]
+struct Slot {
+    rt: u64,
+    ts: u64,
+    boot: u32,
+    /// 0 ordinary, 1 stale burst, 2 merge trigger
+    role: u8,
+}
+fn r100(x: u64) -> u64 {
+    x / 100 * 100
+}
+/// the reception times / timestamps of one boot of `m` messages whose clock started at `s` (absolute, us).
+/// Merge kinds: slot `trig` (>= 3, < m) is the message that pulls the interim lifecycle's start below the predecessor's end.
+fn boot_slots(rng: &mut Rng, s: u64, kind: BootKind, m: usize, trig: usize, boot: u32) -> Vec<Slot> {
+    let mut v: Vec<Slot> = vec![];
+    match kind {
+        BootKind::Plain | BootKind::Long => {
+            let mut ts = if m == 1 { r100(rng.range(2_500_000, 4_000_000)) } else { r100(rng.range(500_000, 1_500_000)) };
+            let mut delay = rng.below(200_000);
+            for k in 0..m {
+                if k > 0 {
+                    let inc = if kind == BootKind::Long { r100(rng.range(3 * SEC, 25 * SEC)) } else { r100(rng.range(5_000, 2 * SEC)) };
+                    ts += inc;
+                    // reception times do not go backwards: the delay shrinks by at most the step of the timestamp
+                    let nd = rng.below(200_000);
+                    delay = if nd + inc >= delay { nd } else { delay - inc };
+                }
+                if k + 1 == m && ts < 2_500_000 {
+                    ts = r100(2_500_000 + rng.below(SEC));
+                }
+                v.push(Slot { rt: s + ts + delay, ts, boot, role: 0 });
+            }
+        }
+        BootKind::MergePub | BootKind::MergeBuf => {
+            assert!(trig >= 3 && trig < m);
+            let h = rng.range(2, trig as u64 - 1) as usize;
+            let b = trig - h;
+            let ts0 = r100(rng.range(500_000, 1_500_000));
+            let max1 = ts0 + if kind == BootKind::MergePub { r100(rng.range(61 * SEC, 68 * SEC)) } else { r100(rng.range(11 * SEC, 40 * SEC)) };
+            // head: ts0, h-2 points in between (at least 300 ms apart), max1
+            let mut head = vec![ts0];
+            let mut mids: Vec<u64> = (0..h - 2).map(|_| r100(rng.range(ts0 + SEC, max1 - SEC))).collect();
+            mids.sort();
+            for x in mids {
+                let last = *head.last().unwrap();
+                head.push(x.max(last + 300_000).min(max1 - 300_000 * (h as u64)));
+            }
+            head.sort();
+            head.push(max1);
+            let mut d_min = u64::MAX;
+            let mut last_rt = 0;
+            for ts in &head {
+                let d = rng.below(200_000);
+                let rt = (s + ts + d).max(last_rt);
+                d_min = d_min.min(rt - s - ts);
+                last_rt = rt;
+                v.push(Slot { rt, ts: *ts, boot, role: 0 });
+            }
+            // stale burst: buffering delay larger than the lifecycle is old -> calculated start after the end of the head's lifecycle
+            let extra = rng.range(300_000, 3 * SEC);
+            let big_d = max1 + d_min + extra;
+            let mut ts_b = max1 - r100(rng.range(100_000, SEC));
+            for i in 0..b {
+                if i > 0 {
+                    ts_b += r100(rng.range(1_000, 50_000));
+                }
+                v.push(Slot { rt: s + ts_b + big_d, ts: ts_b, boot, role: 1 });
+            }
+            // trigger: delay smaller by x; its calculated start lies >= 2.5 s before the end of the head's lifecycle (no
+            // "slightly overlapping") and moves the interim lifecycle's start by less than 60 s (else it is ignored)
+            let x_lo = extra + 2_600_000;
+            let x_hi = (55 * SEC).min(big_d);
+            let x = r100(rng.range(x_lo + 100, x_hi));
+            let ts_t = ts_b + x + r100(rng.below(5_000));
+            let d_t = big_d - x;
+            v.push(Slot { rt: s + ts_t + d_t, ts: ts_t, boot, role: 2 });
+            let mut ts = ts_t;
+            for _ in trig + 1..m {
+                ts += r100(rng.range(5_000, 1_200_000));
+                v.push(Slot { rt: s + ts + d_t, ts, boot, role: 0 });
+            }
+        }
+    }
+    v
+}
+#[derive(Clone, Debug)]
+struct BootPlan {
+    kind: BootKind,
+    len: usize,
+    trig: usize,
+}
+/// the history of one ECU: boots one after the other, each starting after everything of the previous one was received
+fn ecu_slots(rng: &mut Rng, s0: u64, boots: &[BootPlan]) -> Vec<Slot> {
+    let mut s = s0;
+    let mut out = vec![];
+    for (b, bp) in boots.iter().enumerate() {
+        let v = boot_slots(rng, s, bp.kind, bp.len, bp.trig, b as u32 + 1);
+        let last_rt = v.last().unwrap().rt;
+        let max_ts = v.iter().map(|x| x.ts).max().unwrap();
+        let off = match rng.below(4) {
+            0 => rng.range(SEC, 2 * SEC),
+            1 => rng.range(10 * SEC, 30 * SEC),
+            _ => rng.range(SEC, 12 * SEC),
+        };
+        s = last_rt.max(s + max_ts) + off;
+        out.extend(v);
+    }
+    out
+}
+/// partition of `m` content positions into boots.  `wish` = (position, kind): the message at this position is the merge
+/// trigger of a boot of this kind (position >= 3).  `cut_ok(c)`: a new boot may start before position c.
+fn plan_boots(rng: &mut Rng, m: usize, wish: Option<(usize, BootKind)>, cut_ok: &dyn Fn(usize) -> bool, reboots: bool) -> Vec<BootPlan> {
+    let mut cuts: Vec<usize> = vec![];
+    let mut wished: Option<(usize, usize, BootKind)> = None; // start of the wished boot, trigger offset inside
+    if let Some((w, kind)) = wish {
+        assert!(w >= 3 && w < m);
+        let a_c: Vec<usize> = (1..=w - 3).filter(|c| cut_ok(*c)).collect();
+        let a = if reboots && !a_c.is_empty() && rng.chance(1, 2) { *rng.pick(&a_c) } else { 0 };
+        let b_c: Vec<usize> = (w + 1..m).filter(|c| cut_ok(*c)).collect();
+        let b = if reboots && !b_c.is_empty() && rng.chance(1, 2) { *rng.pick(&b_c) } else { m };
+        if a > 0 {
+            cuts.push(a);
+            let c2: Vec<usize> = (1..a).filter(|c| cut_ok(*c)).collect();
+            if !c2.is_empty() && rng.chance(1, 3) {
+                cuts.push(*rng.pick(&c2));
+            }
+        }
+        if b < m {
+            cuts.push(b);
+            let c2: Vec<usize> = (b + 1..m).filter(|c| cut_ok(*c)).collect();
+            if !c2.is_empty() && rng.chance(1, 3) {
+                cuts.push(*rng.pick(&c2));
+            }
+        }
+        wished = Some((a, w - a, kind));
+    } else if reboots {
+        let cands: Vec<usize> = (1..m).filter(|c| cut_ok(*c)).collect();
+        let want = rng.below(3) as usize;
+        for _ in 0..want {
+            if !cands.is_empty() {
+                cuts.push(*rng.pick(&cands));
+            }
+        }
+    }
+    cuts.sort();
+    cuts.dedup();
+    let mut bounds = vec![0];
+    bounds.extend(cuts);
+    bounds.push(m);
+    let mut out = vec![];
+    for w in bounds.windows(2) {
+        let len = w[1] - w[0];
+        match wished {
+            Some((a, t, kind)) if a == w[0] => out.push(BootPlan { kind, len, trig: t }),
+            _ => {
+                if len >= 4 && rng.chance(1, 2) {
+                    let kind = if rng.chance(1, 2) { BootKind::MergePub } else { BootKind::MergeBuf };
+                    out.push(BootPlan { kind, len, trig: rng.range(3, len as u64 - 1) as usize });
+                } else {
+                    out.push(BootPlan { kind: if rng.chance(1, 3) { BootKind::Long } else { BootKind::Plain }, len, trig: 0 });
+                }
+            }
+        }
+    }
+    out
+}
+/// messages of the same ECU the plugin must ignore (unrelated log lines and near misses that reuse a running serial)
+fn pipe_filler(rng: &mut Rng, ecu: u32, plans: &[Plan]) -> Msg {
+    let serial = if plans.is_empty() { 7 } else { rng.pick(plans).serial };
+    let flda = Body::Flda { be: rng.chance(1, 2), sty: 2, sty2: 6, serial, pnr: rng.range(1, 4), raw_ti: TI_RAWD, payload: vec![0xAA; rng.range(0, 3) as usize] };
+    match rng.below(8) {
+        0 => Msg { ecu, lc: 0, ext: None, body: Body::Args { be: false, args: vec![] } },
+        1 => Msg { ecu, lc: 0, ext: Some((c4("APID"), c4("CTID"), 0x40, 5)), body: flda }, // non-verbose
+        2 => Msg { ecu, lc: 0, ext: Some((c4("APID"), c4("CTID"), 0x31, 5)), body: flda }, // log warn
+        3 => Msg { ecu, lc: 0, ext: Some((c4("APID"), c4("CTID"), 0x41, 4)), body: flda }, // wrong noar
+        4 => Msg { ecu, lc: 0, ext: Some((c4("APID"), c4("CTID"), 0x41, 5)), body: Body::Args { be: false, args: vec![enc_str(b"FLDA"), enc_int(false, 2, serial), enc_int(false, 6, 1), (TI_RAWD, vec![1, 2]), enc_str(b"FLDX")] } },
+        _ => Msg { ecu, lc: 0, ext: Some((c4("APID"), c4("CTID"), 0x41, 1)), body: Body::Args { be: false, args: vec![enc_str(b"hello world")] } },
+    }
+}
+/// one ECU of a pipeline case: its transfers (in the order their announcements are sent), the content list (message,
+/// transfer it belongs to) and -- once the history is chosen -- one slot per content
+struct Lane {
+    ecu: u32,
+    xfers: Vec<(Plan, Fault)>,
+    contents: Vec<(Msg, Option<usize>)>,
+    slots: Vec<Slot>,
+}
+/// contents of a lane: `lead` fillers, then the transfers (one after the other or interleaved) with fillers in between
+fn lane_contents(rng: &mut Rng, ecu: u32, xfers: &[(Plan, Fault)], lead: usize, noise: u64, interleaved: bool, trail: usize) -> Vec<(Msg, Option<usize>)> {
+    let plans: Vec<Plan> = xfers.iter().map(|x| x.0.clone()).collect();
+    let seqs: Vec<Vec<Msg>> = xfers.iter().map(|(p, f)| transfer_msgs(p, f)).collect();
+    let mut out: Vec<(Msg, Option<usize>)> = (0..lead).map(|_| (pipe_filler(rng, ecu, &plans), None)).collect();
+    let mut pos = vec![0usize; seqs.len()];
+    loop {
+        let open: Vec<usize> = (0..seqs.len()).filter(|i| pos[*i] < seqs[*i].len()).collect();
+        if open.is_empty() {
+            break;
+        }
+        if noise > 0 && rng.chance(noise, 10) {
+            out.push((pipe_filler(rng, ecu, &plans), None));
+        }
+        let i = if interleaved { *rng.pick(&open) } else { open[0] };
+        out.push((seqs[i][pos[i]].clone(), Some(i)));
+        pos[i] += 1;
+    }
+    for _ in 0..trail {
+        out.push((pipe_filler(rng, ecu, &plans), None));
+    }
+    out
+}
+/// the position in the contents of message number `j` of transfer `x`
+fn content_pos(contents: &[(Msg, Option<usize>)], x: usize, j: usize) -> Option<usize> {
+    contents.iter().enumerate().filter(|(_, c)| c.1 == Some(x)).map(|(i, _)| i).nth(j)
+}
+/// a new boot may start before position c unless a transfer with a fault would be split by it (a reboot in the middle of
+/// a transfer is itself the fault: the two halves belong to different keys)
+fn cut_ok_for(lane_contents: &[(Msg, Option<usize>)], xfers: &[(Plan, Fault)]) -> impl Fn(usize) -> bool {
+    let mut spans: Vec<(usize, usize)> = vec![];
+    for (x, (_, f)) in xfers.iter().enumerate() {
+        if *f != Fault::None {
+            let idx: Vec<usize> = lane_contents.iter().enumerate().filter(|(_, c)| c.1 == Some(x)).map(|(i, _)| i).collect();
+            if let (Some(a), Some(b)) = (idx.first(), idx.last()) {
+                spans.push((*a, *b));
+            }
+        }
+    }
+    move |c: usize| !spans.iter().any(|(a, b)| *a < c && c <= *b)
+}
+/// what a transfer must have become, from the boots its messages were sent in
+fn truth_intents(p: &Plan, f: &Fault, msgs: &[&Msg]) -> Vec<Intent> {
+    let mut labels: Vec<u32> = msgs.iter().map(|m| m.lc).collect();
+    labels.dedup();
+    if labels.len() <= 1 {
+        return vec![Intent { lc: labels.first().copied().unwrap_or(1), ..intent(p, f) }];
+    }
+    // a reboot in the middle (only fault-free transfers are split): the part before it is a transfer that broke off (or,
+    // if only the end marker came after the reboot, one without end marker); what comes after the reboot addresses another
+    // key: packages without announcement
+    let n = chunks(p).len();
+    let first = labels[0];
+    let has_flst = msgs.iter().any(|m| m.lc == first && matches!(m.body, Body::Flst { .. }));
+    let pk_first = msgs.iter().filter(|m| m.lc == first && matches!(m.body, Body::Flda { .. } | Body::FldaPat { .. })).count();
+    let f1 = if !has_flst { "drop_flst" } else if pk_first == n { "drop_flfi" } else { "trunc" };
+    let mut v = vec![Intent { lc: first, fault: f1.into(), ..intent(p, f) }];
+    for l in &labels[1..] {
+        v.push(Intent { lc: *l, fault: "drop_flst".into(), ..intent(p, f) });
+    }
+    v
+}
+fn pipe_case(cfg: Cfg, mode: u8, lanes: Vec<Lane>, mut tags: Vec<String>) -> CaseIn {
+    let mut order: Vec<(u64, usize, usize)> = vec![];
+    for (li, l) in lanes.iter().enumerate() {
+        assert_eq!(l.contents.len(), l.slots.len());
+        for (k, s) in l.slots.iter().enumerate() {
+            order.push((s.rt, li, k));
+        }
+    }
+    order.sort();
+    let mut msgs = vec![];
+    let mut times = vec![];
+    for (_, li, k) in &order {
+        let l = &lanes[*li];
+        let s = &l.slots[*k];
+        msgs.push(Msg { ecu: l.ecu, lc: s.boot, ..l.contents[*k].0.clone() });
+        times.push((s.rt, (s.ts / 100) as u32));
+    }
+    let mut intents = vec![];
+    for l in &lanes {
+        for (x, (p, f)) in l.xfers.iter().enumerate() {
+            let ms: Vec<Msg> = l.contents.iter().zip(l.slots.iter()).filter(|(c, _)| c.1 == Some(x)).map(|(c, s)| Msg { lc: s.boot, ..c.0.clone() }).collect();
+            let refs: Vec<&Msg> = ms.iter().collect();
+            let its = truth_intents(p, f, &refs);
+            if its.len() > 1 {
+                tags.push("transfer_split_by_reboot".into());
+            }
+            intents.extend(its);
+            // which message of a transfer sits where in the history
+            for (c, s) in l.contents.iter().zip(l.slots.iter()) {
+                if c.1 == Some(x) && s.role > 0 {
+                    let what = match &c.0.body {
+                        Body::Flst { .. } => "flst".to_string(),
+                        Body::Flfi { .. } => "flfi".to_string(),
+                        Body::Flda { pnr, .. } | Body::FldaPat { pnr, .. } => if *pnr == 1 { "flda1".to_string() } else { "flda_later".to_string() },
+                        _ => "other".to_string(),
+                    };
+                    tags.push(format!("{}_is_{}", if s.role == 2 { "merge_trigger" } else { "stale_burst_has" }, what));
+                }
+            }
+        }
+        for (c, s) in l.contents.iter().zip(l.slots.iter()) {
+            if c.1.is_none() && s.role == 2 {
+                tags.push("merge_trigger_is_unrelated".into());
+            }
+        }
+    }
+    tags.push(format!("ecus{}", lanes.len()));
+    tags.sort();
+    tags.dedup();
+    CaseIn { cfg, msgs, intents, isolate: false, probe: None, spre: vec![], sdirs: vec![], sreadonly: vec![], saves: vec![], pipe: Some(Pipe { mode, times, tags }) }
+}
+/// configuration of `adlt convert --file_transfer=<glob> --file_transfer_path <dir>` (src/bin/adlt/convert.rs)
+fn convert_cfg(glob: &str) -> Cfg {
+    Cfg { allow_save: false, keep_flda: true, apid: None, ctid: None, ..autosave_cfg(false, glob, "") }
+}
+fn pipe_cfg(k: u64) -> Cfg {
+    match k % 4 {
+        0 => std_cfg(),
+        1 => convert_cfg("*"),
+        2 => Cfg { keep_flda: true, apid: None, ..std_cfg() },
+        _ => autosave_cfg(true, "*.bin", "/"),
+    }
+}
+fn kind_tag(k: BootKind) -> &'static str {
+    match k {
+        BootKind::Plain => "boot_plain",
+        BootKind::Long => "boot_confirmed_by_span",
+        BootKind::MergePub => "merge_into_published",
+        BootKind::MergeBuf => "merge_into_buffered",
+    }
+}
+fn boots_tags(boots: &[BootPlan]) -> Vec<String> {
+    boots.iter().map(|b| kind_tag(b.kind).to_string()).collect()
+}
+fn pipe_plan(rng: &mut Rng, ecu: u32, serial: u64, name: &[u8], n: u64, bs: u64, last: u64) -> Plan {
+    Plan { ecu, lc: 0, sty: sty_for(rng, serial), be: rng.chance(1, 3), sty2: *rng.pick(&[6u8, 6, 2, 0, 5]), raw_ti: if rng.chance(1, 6) { TI_STRG } else { TI_RAWD }, ..simple_plan(serial, name, rekey_file(rng, n, bs, last), bs) }
+}
+/// a bystander ECU: one or two plain / long boots with a small intact transfer
+fn bystander_lane(rng: &mut Rng, ecu: u32, serial: u64, s0: u64) -> (Lane, Vec<String>) {
+    let n = rng.range(1, 3);
+    let bs = rng.range(1, 4);
+    let last = rng.range(1, bs);
+    let p = pipe_plan(rng, ecu, serial, b"by.bin", n, bs, last);
+    let xfers = vec![(p, Fault::None)];
+    let lead = rng.range(0, 2) as usize;
+    let trail = rng.range(0, 2) as usize;
+    let contents = lane_contents(rng, ecu, &xfers, lead, 2, false, trail);
+    let ok = cut_ok_for(&contents, &xfers);
+    let boots = plan_boots(rng, contents.len(), None, &ok, true);
+    let slots = ecu_slots(rng, s0, &boots);
+    let t = boots_tags(&boots);
+    (Lane { ecu, xfers, contents, slots }, t)
+}
+fn pipe_cases(sink: &mut Sink, rng: &mut Rng, tier: &str) {
+    let quick = tier == "quick";
+    let mut k = 0u64;
+    // (a) sweep: which message of the transfer triggers the merge (announcement, first / later / last package, end marker) x
+    //     merge into the published / the still buffered predecessor x number of packages; every third case with a second ECU
+    //     whose messages are queued in between, every fourth with a reboot before or after the boot with the merge
+    for kind in [BootKind::MergePub, BootKind::MergeBuf] {
+        for n in 1..=4u64 {
+            for j in 0..(n + 2) as usize {
+                for rep in 0..(if quick { 2 } else { 4 }) {
+                    k += 1;
+                    let bs = [2u64, 1, 4, 3, 7, 30][(k % 6) as usize];
+                    let last = if k % 3 == 0 { bs } else { 1 + (k % bs) };
+                    let serial = [17u64, 0, 1, 255, 65535, 65536, 4711][(k % 7) as usize];
+                    let ecu = c4(if k % 5 == 0 { "ABCD" } else { "ECU1" });
+                    let p = pipe_plan(rng, ecu, serial, if k % 3 == 1 { b"dir/app.log" } else { b"app.bin" }, n, bs, last);
+                    let f = match (rep, k % 3) {
+                        (1, 0) => Fault::Dup(1, n as usize),
+                        (1, 1) => Fault::DropFlfi,
+                        (3, _) => Fault::Drop(n as usize),
+                        _ => Fault::None,
+                    };
+                    // the trigger is message j of the transfer as sent (a dropped end marker: the last package instead)
+                    let sent = transfer_msgs(&p, &f).len();
+                    let j = j.min(sent - 1);
+                    let xfers = vec![(p, f)];
+                    // at least 3 messages before the trigger (head of 2, burst of 1)
+                    let lead = (3usize.saturating_sub(j)) + rng.below(3) as usize;
+                    let trail = rng.below(3) as usize;
+                    let contents = lane_contents(rng, ecu, &xfers, lead, if rep == 0 { 0 } else { 2 }, false, trail);
+                    let w = content_pos(&contents, 0, j).unwrap();
+                    let ok = cut_ok_for(&contents, &xfers);
+                    let boots = plan_boots(rng, contents.len(), Some((w, kind)), &ok, k % 4 == 0);
+                    let mut tags = boots_tags(&boots);
+                    let s0 = RHO + rng.below(5 * SEC);
+                    let slots = ecu_slots(rng, s0, &boots);
+                    let mut lanes = vec![Lane { ecu, xfers, contents, slots }];
+                    if k % 3 == 0 {
+                        let (l, t) = { let s0 = RHO + rng.below(150 * SEC); bystander_lane(rng, c4("ECU2"), serial, s0) };
+                        tags.extend(t.into_iter().map(|x| format!("bystander_{}", x)));
+                        lanes.push(l);
+                    }
+                    record(sink, "pipe_sweep", pipe_case(pipe_cfg(k), 1, lanes, tags));
+                }
+            }
+        }
+    }
+    // (b) reboot at every position of a fault-free transfer (plain / long boots; the halves belong to different keys)
+    for n in 1..=3u64 {
+        let total = n as usize + 2;
+        for cut in 1..total {
+            for rep in 0..(if quick { 1 } else { 3 }) {
+                k += 1;
+                let bs = [2u64, 3, 1, 5][(k % 4) as usize];
+                let ecu = c4("ECU1");
+                // equal-sized packages in half of the cases: the part after the reboot may complete as a recovered transfer
+                let last = if (k + rep) % 2 == 0 { bs } else { 1 + (k % bs) };
+                let p = pipe_plan(rng, ecu, 40 + k, b"re/boot.bin", n, bs, last);
+                let xfers = vec![(p, Fault::None)];
+                let lead = rng.below(2) as usize;
+                let trail = rng.below(2) as usize;
+                let contents = lane_contents(rng, ecu, &xfers, lead, 0, false, trail);
+                let c = content_pos(&contents, 0, cut).unwrap();
+                let mk = |rng: &mut Rng, len: usize| BootPlan { kind: if rng.chance(1, 3) { BootKind::Long } else { BootKind::Plain }, len, trig: 0 };
+                let boots = vec![mk(rng, c), mk(rng, contents.len() - c)];
+                let mut tags = boots_tags(&boots);
+                tags.push("reboot_inside_transfer".into());
+                let slots = { let s0 = RHO + rng.below(5 * SEC); ecu_slots(rng, s0, &boots) };
+                let mut lanes = vec![Lane { ecu, xfers, contents, slots }];
+                if k % 2 == 0 {
+                    let (l, _) = { let s0 = RHO + rng.below(20 * SEC); bystander_lane(rng, c4("ECU2"), 40 + k, s0) };
+                    lanes.push(l);
+                }
+                record(sink, "pipe_reboot", pipe_case(pipe_cfg(k), 1, lanes, tags));
+            }
+        }
+    }
+    // (c) random histories: 1..3 ECUs, 1..2 transfers each (one after the other or interleaved, single faults), random boots
+    let n_rand = match tier {
+        "quick" => 110,
+        "search" => 500,
+        _ => 2000,
+    };
+    for _ in 0..n_rand {
+        k += 1;
+        let necu = *rng.pick(&[1usize, 1, 2, 2, 3]);
+        let base = *rng.pick(&[3u64, 17, 200, 65535, 70000]);
+        let mut lanes = vec![];
+        let mut tags = vec![];
+        for li in 0..necu {
+            let ecu = c4(["ECU1", "ECU2", "ABCD"][li]);
+            let nx = rng.range(1, 2) as usize;
+            let mut xfers = vec![];
+            for x in 0..nx {
+                let bs = *rng.pick(&[1u64, 2, 3, 4, 5, 8, 30, 100]);
+                let n = rng.range(1, 5);
+                let last = if rng.chance(1, 2) { bs } else { rng.range(1, bs) };
+                let name = if rng.chance(1, 2) { format!("p{}_{}.bin", li, x).into_bytes() } else { rng.pick(NAMES).as_bytes().to_vec() };
+                // the same serial on several ECUs; distinct serials on one ECU
+                let p = pipe_plan(rng, ecu, base + x as u64, &name, n, bs, last);
+                let fs = rekey_faults(n as usize, true);
+                let f = if rng.chance(3, 5) { Fault::None } else { rng.pick(&fs).clone() };
+                xfers.push((p, f));
+            }
+            let (lead, noise, inter, trail) = (rng.below(4) as usize, rng.below(4), rng.chance(1, 2), rng.below(3) as usize);
+            let contents = lane_contents(rng, ecu, &xfers, lead, noise, inter, trail);
+            let ok = cut_ok_for(&contents, &xfers);
+            // a wish in half of the lanes: some message of the first transfer is a merge trigger
+            let mut wish = None;
+            if rng.chance(1, 2) {
+                let cnt = contents.iter().filter(|c| c.1 == Some(0)).count();
+                let j = rng.below(cnt as u64) as usize;
+                let w = content_pos(&contents, 0, j).unwrap();
+                if w >= 3 {
+                    wish = Some((w, if rng.chance(1, 2) { BootKind::MergePub } else { BootKind::MergeBuf }));
+                }
+            }
+            let rb = rng.chance(2, 3);
+            let boots = plan_boots(rng, contents.len(), wish, &ok, rb);
+            tags.extend(boots_tags(&boots));
+            let slots = { let s0 = RHO + rng.below(if li == 0 { 5 * SEC } else { 150 * SEC }); ecu_slots(rng, s0, &boots) };
+            lanes.push(Lane { ecu, xfers, contents, slots });
+        }
+        let cfg = match rng.below(3) {
+            0 => gen_cfg(rng),
+            _ => pipe_cfg(rng.below(4)),
+        };
+        let c = pipe_case(cfg, 1, lanes, tags);
+        record(sink, "pipe_random", c);
+    }
+    // (d) the binary: `adlt convert --file_transfer=<glob> --file_transfer_path <dir>` on a file with such a history
+    let n_bin = if quick { 16 } else { 48 };
+    for i in 0..n_bin {
+        k += 1;
+        let kind = if i % 2 == 0 { BootKind::MergePub } else { BootKind::MergeBuf };
+        let n = 1 + (i as u64 / 2) % 4;
+        let bs = [4u64, 2, 7, 3][(i % 4) as usize];
+        let ecu = c4("ECU1");
+        let p = pipe_plan(rng, ecu, 4711 + i as u64, format!("conv{}.bin", i).as_bytes(), n, bs, 1 + (k % bs));
+        let xfers = vec![(p, Fault::None)];
+        let j = (i / 2) % (n as usize + 2);
+        let lead = 3usize.saturating_sub(j) + rng.below(2) as usize;
+        let contents = lane_contents(rng, ecu, &xfers, lead, 1, false, 1);
+        let w = content_pos(&contents, 0, j).unwrap();
+        let ok = cut_ok_for(&contents, &xfers);
+        let boots = plan_boots(rng, contents.len(), Some((w, kind)), &ok, i % 4 == 3);
+        let mut tags = boots_tags(&boots);
+        let slots = { let s0 = RHO + rng.below(5 * SEC); ecu_slots(rng, s0, &boots) };
+        let mut lanes = vec![Lane { ecu, xfers, contents, slots }];
+        if i % 3 == 2 {
+            let (l, t) = { let s0 = RHO + rng.below(100 * SEC); bystander_lane(rng, c4("ECU2"), 4711 + i as u64, s0) };
+            tags.extend(t.into_iter().map(|x| format!("bystander_{}", x)));
+            lanes.push(l);
+        }
+        let glob = if i % 5 == 4 { "*.bin" } else { "*" };
+        record(sink, "pipe_convert", pipe_case(convert_cfg(glob), 2, lanes, tags));
     }
 }
 
@@ -2176,6 +2993,13 @@ fn main() {
         sink.finish();
         return;
     }
+    if std::env::var("C17_ONLY").as_deref() == Ok("pipe") {
+        // development / focused search: only the families behind the real lifecycle stage
+        let mut rng3 = Rng::new(a.seed ^ 0x5eed_0177);
+        pipe_cases(&mut sink, &mut rng3, &a.tier);
+        sink.finish();
+        return;
+    }
     let mut rng = Rng::new(a.seed);
     let (n_scen, n_mal, sweep_n) = match a.tier.as_str() {
         "quick" => (800, 350, 4),
@@ -2197,10 +3021,12 @@ fn main() {
         // own random stream: the families above and below keep their inputs
         let mut rng2 = Rng::new(a.seed ^ 0x5eed_0176);
         rekey_cases(&mut sink, &mut rng2, &a.tier);
+        let mut rng3 = Rng::new(a.seed ^ 0x5eed_0177);
+        pipe_cases(&mut sink, &mut rng3, &a.tier);
     }
     if a.tier != "search" && std::env::var("C17_NO_PREALLOC_PROBE").is_err() {
         // 1040 packages of 65000 bytes = 64.5 MiB, just above the 64 MiB pre-allocation cap
-        record(&mut sink, "prealloc_probe", CaseIn { cfg: std_cfg(), msgs: vec![], intents: vec![], isolate: false, probe: Some((1040, 65000)), spre: vec![], sdirs: vec![], sreadonly: vec![], saves: vec![] });
+        record(&mut sink, "prealloc_probe", CaseIn { cfg: std_cfg(), msgs: vec![], intents: vec![], isolate: false, probe: Some((1040, 65000)), spre: vec![], sdirs: vec![], sreadonly: vec![], saves: vec![], pipe: None });
     }
     for _ in 0..n_scen {
         let c = gen_scenario(&mut rng, a.tier != "quick");
